@@ -507,7 +507,10 @@ class Contract:
             w = spec.when(ctx.with_old(old), **bound)
             out.append(("xpost", "%s-only-when" % spec.label, w, None))
         for item in self.xensures(ctx, old, exc, **bound):
-            out.append(("xpost", item[0], item[1], item[2] if len(item) > 2 else None))
+            kind = "xpost"
+            if len(item) > 3 and isinstance(item[3], dict):
+                kind = item[3].get("kind", "xpost")
+            out.append((kind, item[0], item[1], item[2] if len(item) > 2 else None))
         return out
 
     def eval_xensures(self, ctx, old, bound, rs):
